@@ -1050,8 +1050,14 @@ func RunUpload(sw *Swarm, rng *rand.Rand) (tr *Tor, stats map[string]int) {
 		}
 	}
 	stats["unchoked_at_kill"] = unch
-	sw.Act("kill torrent with %d unchoked peers", unch)
-	tr.Kill()
+	if rng.IntN(3) == 0 && tr.KillWithFullMailbox() {
+		// the torrent stops with its mailbox full: the last things its peers have to say cannot be delivered
+		sw.Act("torrent with %d unchoked peers stops while its mailbox is full", unch)
+		stats["killed_with_full_mailbox"]++
+	} else {
+		sw.Act("kill torrent with %d unchoked peers", unch)
+		tr.Kill()
+	}
 	sw.Cut()
 	time.Sleep(time.Second)
 	sw.Cut()
